@@ -50,7 +50,10 @@ def split_file(path):
     if rc != 0 or to:
         raise C.MachineryError("fcv-unit quote --split-file failed: %s" % err.decode("utf-8", "replace")[-500:])
     lines = []
-    for l in out.decode("utf-8", "replace").splitlines():
+    for raw in out.split(b"\n"):      # LF only (splitlines() would also split at U+0085 etc. inside the strings)
+        l = raw.decode("utf-8", "replace")
+        if not l.strip():
+            continue
         j = json.loads(l)
         if j.get("type") == "line":
             lines.append(j)
